@@ -27,49 +27,48 @@ Definition fn_of (nones : list Z) : option (list string) -> tree Z -> list (opti
     | _ => Some 0
     end.
 
-(* C20-b: self = {n: {n: leaf 1}}, the other operand is empty, default= given: fn is handed the stand-in built from
-   the PARENT of n (an empty tensordict under the key "n") instead of the default *)
+(* the former defects of the front-ends (C20-a, C20-b, C20-c, C20-f, repaired in /repo), on their witnesses *)
 Definition self_b : tree Z := Node (Old 10) m0 (FCons "n" (Node (Old 11) m0 (FCons "n" (lf 1) FNil)) FNil).
 Definition other_b : tree Z := Node (Old 20) m0 FNil.
-Lemma skeleton_hit_witness :
-  let o := with_default base_opts in
-  wf_keys Z (FCons "n" (Node (Old 11) m0 (FCons "n" (lf 1) FNil)) FNil) = true
-  /\ nohit Z (FCons "n" (Node (Old 11) m0 (FCons "n" (lf 1) FNil)) FNil) = false
-  /\ exists r, front Z o (fn_of []) false false self_b [other_b] None None = Ok r
-               /\ ref_apply Z o (fn_of []) false self_b [other_b] None <> ROk (option_map (erase_t Z) r).
-Proof. cbv zeta. split; [reflexivity|]. split; [reflexivity|]. eexists. split; [vm_compute; reflexivity|]. vm_compute. discriminate. Qed.
-
-(* C20-c: in place on a locked tensordict that holds a non-tensor entry: ValueError, where the reference returns self *)
 Definition self_c : tree Z := Node (Old 10) mL (FCons "a" (lf 1) (FCons "t" (NonT (Old 12) 5 mL) FNil)).
-Lemma inplace_locked_nontensor_witness :
-  let o := with_inplace base_opts in
-  front Z o (fn_of []) false false self_c [] None None = Raised EValue
-  /\ exists x, ref_apply Z o (fn_of []) false self_c [] None = ROk (Some x).
-Proof. cbv zeta. split; [vm_compute; reflexivity|]. eexists. vm_compute. reflexivity. Qed.
-
-(* C20-a: named_apply drops out= *)
 Definition self_a : tree Z := Node (Old 10) m0 (FCons "a" (lf 1) FNil).
-Definition out_a : tree Z := Node (Old 30) m0 (FCons "a" (lf 31) FNil).
-Lemma named_apply_out_witness :
-  let o := base_opts in
-  (exists m f, front Z o (fn_of []) false false self_a [] (Some out_a) None = Ok (Some (Node (Old 30) m f)))
-  /\ (exists m f, named_apply_front Z o (fn_of []) false false self_a [] (Some out_a) None = Ok (Some (Node New m f))).
-Proof. cbv zeta. split; do 2 eexists; vm_compute; reflexivity. Qed.
+Definition self_f : tree Z := Node (Old 10) m0 (FCons "a" (lf 1) (FCons "t" (NonT (Old 12) 5 m0) FNil)).
+Definition out_f : tree Z := Node (Old 30) m0 (FCons "a" (lf 31) (FCons "t" (NonT (Old 32) 50 m0) FNil)).
+Lemma former_front_defects :
+  (* C20-b: the other operand lacks the nested tensordict "n" whose key "n" is also a key of self: fn gets the default *)
+  (let o := with_default base_opts in
+   exists r, front Z o (fn_of []) false false self_b [other_b] None None = Ok r
+             /\ ref_apply Z o (fn_of []) false self_b [other_b] None = ROk (option_map (erase_t Z) r)
+             /\ option_map (erase_t Z) r
+                = Some (SNode Z (SCons Z "n" (SNode Z (SCons Z "n" (SLeaf Z (SNew Z 102)) (SNil Z))) (SNil Z))))
+  (* C20-c: in place on a locked tensordict that holds a non-tensor entry *)
+  /\ (let o := with_inplace base_opts in
+      exists x, front Z o (fn_of []) false false self_c [] None None = Ok (Some x) /\ shape_t Z x = shape_t Z self_c)
+  (* C20-f: out= already holds the non-tensor entry (data 50): the result carries self's data (5) *)
+  /\ (let o := base_opts in
+      exists m f, front Z o (fn_of []) false false self_f [] (Some out_f) None = Ok (Some (Node (Old 30) m f))
+                  /\ fget Z f "t" = Some (NonT New 5 m0)).
+Proof.
+  cbv zeta. split; [|split].
+  - eexists. split; [vm_compute; reflexivity|]. split; vm_compute; reflexivity.
+  - eexists. split; vm_compute; reflexivity.
+  - do 2 eexists. split; [vm_compute; reflexivity|reflexivity].
+Qed.
 
 (* ---------------------------------------------------------------- thread pools *)
 Definition nested2 : tree Z := Node (Old 10) m0 (FCons "a" (lf 1) (FCons "n" (Node (Old 11) m0 (FCons "c" (lf 2) FNil)) FNil)).
 
-(* C20-f: out= already holds a non-tensor entry: the single-threaded form keeps out's entry (data 50), the thread-pool
-   form writes a new entry with self's data (5) *)
-Definition self_f : tree Z := Node (Old 10) m0 (FCons "a" (lf 1) (FCons "t" (NonT (Old 12) 5 m0) FNil)).
-Definition out_f : tree Z := Node (Old 30) m0 (FCons "a" (lf 31) (FCons "t" (NonT (Old 32) 50 m0) FNil)).
+(* a non-tensor entry that out= already holds, written without validation (checked): both forms write a new entry with
+   self's data; the single-threaded form gives it the metadata of self's entry, the thread-pool form those of out[key] *)
+Definition out_g : tree Z := Node (Old 30) (mkMeta [3%nat] (Some CPU) None false)
+                               (FCons "t" (NonT (Old 32) 50 (mkMeta [3%nat] (Some CPU) None false)) FNil).
 Lemma mt_nontensor_out_witness :
   let o := with_checked base_opts in
   exists m f m' f',
-    st_front Z o (fn_of []) false false self_f [] (Some out_f) None = MOk (Some (Node (Old 30) m f))
-    /\ fget Z f "t" = Some (NonT (Old 32) 50 m0)
-    /\ mt_front Z o (fn_of []) false false self_f [] (Some out_f) None [0%nat] = MOk (Some (Node (Old 30) m' f'))
-    /\ fget Z f' "t" = Some (NonT New 5 m0).
+    st_front Z o (fn_of []) false false self_f [] (Some out_g) None = MOk (Some (Node (Old 30) m f))
+    /\ fget Z f "t" = Some (NonT New 5 m0)
+    /\ mt_front Z o (fn_of []) false false self_f [] (Some out_g) None [0%nat] = MOk (Some (Node (Old 30) m' f'))
+    /\ fget Z f' "t" = Some (NonT New 5 (mkMeta [3%nat] (Some CPU) None false)).
 Proof. cbv zeta. do 4 eexists. split; [vm_compute; reflexivity|]. split; [reflexivity|]. split; [vm_compute; reflexivity|reflexivity]. Qed.
 
 (* the repaired thread-pool form on the former defects: out= with a nested tensordict, default= below the root,
@@ -104,10 +103,10 @@ Definition self_ex_forest : forest Z :=
 
 Lemma example_apply_spec :
   let o := with_default (with_fe base_opts None) in
-  wf_keys Z self_ex_forest = true /\ nohit Z self_ex_forest = true
+  wf_keys Z self_ex_forest = true
   /\ exists x, front Z o (fn_of [3]) false false self_ex [other_ex] None None = Ok (Some x)
                /\ List.length (fkeys Z (match x with Node _ _ f => f | _ => FNil end)) = 2%nat.
-Proof. cbv zeta. split; [reflexivity|]. split; [reflexivity|]. eexists. split; vm_compute; reflexivity. Qed.
+Proof. cbv zeta. split; [reflexivity|]. eexists. split; vm_compute; reflexivity. Qed.
 
 Lemma example_inplace :
   let o := with_inplace base_opts in
